@@ -3,11 +3,14 @@
    - a retransmitted Commit / PreCommit is the stored one: nothing is signed again and nothing changes;
    - a timeout, a ChangeView from a peer (for a higher view or not) and a transaction leave the view untouched and
      broadcast no ChangeView.
+   For every reachable state and script (whole model, P02.v): the node asks the application for a block signature only
+   for the hash of its header - the proposal of its current view held in the primary's slot - and only while its own
+   Commit slot is empty.
    The remaining site of the lock (a PrepareRequest arriving after the commit) and the history-level clauses (no two
    proposals/responses per view, no two commits per height, view monotonicity, recovery contents) are NOT proved; they
    are decided by the monitors on the real library over the generated histories (DESIGN.md section 0.1). *)
 From Coq Require Import ZArith List.
-From DbftV Require Import P03.
+From DbftV Require Import P03 P02.
 Open Scope Z_scope.
 
 Definition own_commit_or_precommit_sent (s : nstate) : Prop :=
@@ -42,3 +45,15 @@ Theorem transaction_after_the_commit_changes_nothing cfg t s0 :
   hx s0 (OnTransaction cfg t) (fun _ s tr => Val tr -> s = s0 /\ no_change_view_broadcast tr).
 Proof. exact (transaction_after_own_commit cfg t s0). Qed.
 Print Assumptions transaction_after_the_commit_changes_nothing.
+
+(* whole model: every signature request in every history is for the node's header, which is the proposal of the node's view
+   (timestamp, nonce, transactions of the PrepareRequest in the primary's slot, index and previous hash of the context),
+   and is made only while the node holds no Commit of its own *)
+Theorem block_signature_only_for_the_proposal_and_only_while_no_own_commit_is_held cfg st ev sc st' tr s h :
+  Reach cfg st -> step cfg st ev sc = Ok (st', tr) -> In (s, CSign h) tr ->
+  (exists b r, header s = Some b /\ h = block_hash b /\ slot (PreparationPayloads s) (PrimaryIndex s) = Some r /\
+               p_body r = B0 (BPrepareRequest (b_ts b) (b_nonce b) (b_hashes b)) /\
+               p_view r = ViewNumber s /\ b_index b = BlockIndex s /\ b_prev b = PrevHash s) /\
+  slot (CommitPayloads s) (MyIndex s) = None.
+Proof. exact (signature_only_for_the_proposal_while_uncommitted cfg st ev sc st' tr s h). Qed.
+Print Assumptions block_signature_only_for_the_proposal_and_only_while_no_own_commit_is_held.
